@@ -78,9 +78,9 @@ def run(ctx, env):
     only_a = sorted(set(a) - set(b))
     only_b = sorted(set(b) - set(a))
     for p in only_a:
-        ctx.ob("R17.2", p, "only-with-feature", False, "function exists only with the feature on")
+        ctx.ob("R17.2", p, "only-with-feature", p.split("::{closure")[0] == HELPER, "function exists only with the feature on" + (" (part of the cfg-selected helper)" if p.split("::{closure")[0] == HELPER else ""))
     for p in only_b:
-        ctx.ob("R17.2", p, "only-without-feature", False, "function exists only with the feature off")
+        ctx.ob("R17.2", p, "only-without-feature", p.split("::{closure")[0] == HELPER, "function exists only with the feature off" + (" (part of the cfg-selected helper)" if p.split("::{closure")[0] == HELPER else ""))
     ndiff = 0
     nsame = 0
     for p in sorted(set(a) & set(b)):
@@ -146,11 +146,20 @@ def run(ctx, env):
     # R17.4
     hb = off.body(HELPER)
     if ctx.anchor("R17.4", HELPER + " (feature off)", hb):
-        oks = [s for (blk, i, s) in block_aggs(hb) if s["rv"]["adt"].endswith("result::Result") and s["rv"]["variant"] == "Ok"]
-        errs = [s for (blk, i, s) in block_aggs(hb) if s["rv"]["adt"].endswith("result::Result") and s["rv"]["variant"] == "Err"]
-        calls = [c.npath for blk, t, c in hb.calls() if c is not None and not c.npath.startswith("nom::error")]
-        ctx.ob("R17.4", HELPER, "feature-off-never-Ok", bool(errs) and not oks and not calls,
-               "Ok aggregates: %d, Err aggregates: %d, other calls: %s" % (len(oks), len(errs), calls), site=site(hb.span))
+        ano = An(off)
+        ret = peel(ano.expand(ano.local(hb, 0)))
+        members = ret[1] if ret[0] == "phi" else [ret]
+        kinds = []
+        for m in members:
+            m = peel(m)
+            if m[0] == "agg" and m[1].endswith("result::Result"):
+                kinds.append(m[2])
+            elif m[0] == "call" and m[2] is not None and m[2].nsyn == "std::ops::FromResidual::from_residual":
+                kinds.append("Err")
+            else:
+                kinds.append("?" + canon(m)[:80])
+        ctx.ob("R17.4", HELPER, "feature-off-never-Ok", bool(kinds) and all(k == "Err" for k in kinds),
+               "return value of the feature-off helper (private helpers inlined): %s" % kinds, site=site(hb.span))
 
 
 def run_thorough(ctx, env):
